@@ -200,6 +200,12 @@ def image_of_field(model: T.Dict[str, T.Any], name: str, spec: str) -> rl.R:
     raise AnalysisError(f"model kind {kind}")
 
 
+# the version patterns for which the pinned tree maps {pep440_version} (v1patterns._normalized_pattern; each is used by the
+# suite's fixtures or the legacy documentation); a pattern may be added, none of these may lose its mapping
+LEGACY_VERSION_PATTERNS_WITH_PEP440 = ("{pycalver}", "{semver}", "v{year}{month}{build}{release}", "{year}{month}{build}{release}",
+                                       "v{year}{build}{release}", "{year}{build}{release}")
+
+
 def run(ctx) -> None:
     prog, cfgs = ctx.prog, ctx.cfgs
     ctx.rule("R1", "for each named legacy part: Image(renderer) ⊆ L(regex), ordered choice consumes the rendering; parts are renderable and mapped to fields")
@@ -324,6 +330,33 @@ def run(ctx) -> None:
                   f"{f} = {unparse(e) if e is not None else None}", loc=vc.loc(ctor[0]), witness={"version": "v2021.03.09.0001", "flag": "--pin-date"})
     ci = prog.klass("version.V1VersionInfo").fields
     ctx.check("R1", ci[:len(cal_fields)] == cal_fields, "V1VersionInfo starts with the V1CalendarInfo fields (the bump replaces them by name)", "version.V1VersionInfo: calendar fields differ from V1CalendarInfo", "", loc="src/bumpver/version.py")
+    # both legacy calendar producers read every derived field from its own strftime directive, in base 10
+    from checks.c14 import _directive
+    ci1 = prog.function("v1version.cal_info")
+    rd1 = prog.function("v1version._parse_field_values")
+    ctx.visit(ci1.fq, rd1.fq)
+    want1 = {"doy": "j", "iso_week": "W", "us_week": "U"}
+    dicts1 = [n for n in ast.walk(ci1.node) if isinstance(n, ast.Dict) and n.keys and all(isinstance(k, ast.Constant) for k in n.keys)]
+    kw1 = [n for n in ast.walk(ci1.node) if isinstance(n, ast.Call) and unparse(n.func).endswith("V1CalendarInfo") and any(k.arg for k in n.keywords)]
+    prodA: T.Dict[str, T.Optional[str]] = {}
+    if len(dicts1) == 1:
+        prodA = {k.value: _directive(v, ci1.params[0]) for k, v in zip(dicts1[0].keys, dicts1[0].values)}
+    elif len(kw1) == 1:
+        prodA = {k.arg: _directive(k.value, ci1.params[0]) for k in kw1[0].keywords if k.arg}
+    else:
+        raise AnalysisError("v1version.cal_info: the field table was not found")
+    prodB: T.Dict[str, T.List[T.Optional[str]]] = {}
+    for n in walk_no_nested(rd1.node):
+        if isinstance(n, ast.Assign) and len(n.targets) == 1 and isinstance(n.targets[0], ast.Name) and n.targets[0].id in want1 \
+                and any(isinstance(c_, ast.Attribute) and c_.attr == "strftime" for c_ in ast.walk(n.value)):
+            recv = next(unparse(c_.value) for c_ in ast.walk(n.value) if isinstance(c_, ast.Attribute) and c_.attr == "strftime")
+            prodB.setdefault(n.targets[0].id, []).append(_directive(n.value, recv))
+    ctx.floor("R1", "legacy calendar fields re-derived by the reader", len(prodB), 3)
+    for f_, d_ in want1.items():
+        a_, b_ = prodA.get(f_), prodB.get(f_, [None])
+        ctx.check("R1", a_ == d_ and all(x == d_ for x in b_), f"legacy field {f_}: cal_info and the reader both use %{d_} (decimal)",
+                  f"v1version: calendar field '{f_}' is not read from %{d_} in base 10 by both producers",
+                  f"cal_info: {a_}, reader: {b_}: a rendered {{{f_}}} does not read back to the value it was rendered from", loc=ci1.loc(), witness={"field": f_, "cal_info": a_, "reader": b_})
     # the reader must not reject a value the renderer can print: no range test inside the field parser may be
     # satisfiable by a value of the field's own domain
     cal = formats.calendar_domains(prog, "v1version.cal_info", (2000, 2099))
@@ -424,6 +457,11 @@ def run(ctx) -> None:
             return "{semver}"
         out_ = vp[1:] if vp.startswith("v") else vp
         return out_.replace("{build}", ".{BID}").replace("{release}", "{pep440_tag}")
+    for vp in LEGACY_VERSION_PATTERNS_WITH_PEP440:
+        ctx.check("R1", vp in pairs, f"_normalized_pattern: {vp!r} has a {{pep440_version}} mapping",
+                  "v1patterns._normalized_pattern: a legacy version pattern lost its {pep440_version} mapping",
+                  f"no replacement of {{pep440_version}} is reached under `{vp_param} == {vp!r}`: file patterns using {{pep440_version}} are compiled with the placeholder left in "
+                  f"(KeyError/TypeError on rendering, never matches)", loc=npf.loc(), witness={"version_pattern": vp})
     for vp, rep in sorted(pairs.items()):
         ctx.check("R1", rep == derive(vp), f"_normalized_pattern: {{pep440_version}} of {vp!r} is {derive(vp)!r}",
                   "v1patterns._normalized_pattern: the {pep440_version} search pattern does not follow from the version pattern",
